@@ -33,6 +33,13 @@ def holesBound (env : Env) : List Piece → Prop
   | .text _ :: r => holesBound env r
   | .hole n :: r => (env.get n).isSome = true ∧ holesBound env r
 
+instance (env : Env) : (ps : List Piece) → Decidable (holesBound env ps)
+  | [] => isTrue trivial
+  | .text _ :: r => by unfold holesBound; exact instDecidableHolesBound env r
+  | .hole _ :: r => by
+    have := instDecidableHolesBound env r
+    unfold holesBound; exact inferInstance
+
 /-- the text with every hole replaced by the printed value of its variable -/
 def fill (env : Env) : List Piece → Bytes
   | [] => []
